@@ -75,14 +75,19 @@ def make_simfile(kind, version, extra=None):
     return sf
 
 
-def make_chart(kind, vector, seed, extra=None, empty_value=""):
-    """vector: tuple over PROPS of 0 absent / 1 empty / 2 non-empty"""
+def make_chart(kind, vector, seed, extra=None, empty_value="", notes_first=None):
+    """vector: tuple over PROPS of 0 absent / 1 empty / 2 non-empty; notes_first: put the note data before the
+    timing properties (the rule is about which properties the chart has, not where they stand)"""
     if kind == "none":
         return None
     if kind == "sm":
         return SMChart.blank()
+    if notes_first is None:
+        notes_first = sum(vector) % 2 == 1
     ch = SSCChart()
     ch["STEPSTYPE"] = "dance-single"
+    if notes_first:
+        ch["NOTES"] = "0000\n0000\n0000\n0000\n"
     for p, st in zip(PROPS, vector):
         if st == 1:
             ch[p] = empty_value
@@ -94,7 +99,8 @@ def make_chart(kind, vector, seed, extra=None, empty_value=""):
             ch.pop(k, None)
         else:
             ch[k] = v
-    ch["NOTES"] = "0000\n0000\n0000\n0000\n"
+    if not notes_first:
+        ch["NOTES"] = "0000\n0000\n0000\n0000\n"
     return ch
 
 
